@@ -48,6 +48,17 @@ def run_property(prop, tier, seed, make_cases, bounds, assumptions, confirm=None
                     cases.append(d)
             else:
                 cases.append(c)
+    # decision split: the first k branch decisions of a case are fixed per sub-case (2^k workers explore disjoint parts of its path tree)
+    expanded = []
+    for c in cases:
+        k = c.pop('dsplit', 0)
+        if not k: expanded.append(c); continue
+        import itertools
+        for bits in itertools.product([True, False], repeat=k):
+            d = dict(c); d['prefix'] = [[b, False] for b in bits]
+            d['name'] = c.get('name', str(c.get('line'))) + ' {' + ''.join('1' if b else '0' for b in bits) + '}'
+            expanded.append(d)
+    cases = expanded
     run.cases_by_name = {c.get('name', str(c.get('line'))): c for c in cases}
     run.bounds = dict(bounds)
     run.bounds.update(cases=len(cases), solver_timeout_ms=BUDGET['solver_ms'], step_budget_per_path=BUDGET['steps'], profiles=list(profiles))
